@@ -282,7 +282,7 @@ func textClass(n int) string {
 
 type fileCase struct {
 	Ali    gen.Ali   `json:"ali"`
-	Repeat int       `json:"repeat,omitempty"`
+	Shape  shape     `json:"shape"`
 	Cfg    cfg       `json:"cfg"`
 	Ext    string    `json:"ext"`
 	Plan   writePlan `json:"plan"`
@@ -295,17 +295,17 @@ func genFile(t *rapid.T) fileCase {
 	var c fileCase
 	c.Cfg = genCfg(t, "cfg")
 	c.Ext = rapid.SampledFrom(exts).Draw(t, "ext")
-	c.Ali, c.Repeat = genSized(t, domOf(c.Cfg), rapid.SampledFrom(singleSizes).Draw(t, "size"), c.Cfg)
+	c.Ali, c.Shape = genSized(t, domOf(c.Cfg), rapid.SampledFrom(singleSizes).Draw(t, "size"), c.Cfg)
 	c.Plan = genPlan(t)
 	return c
 }
 
 func checkFile(c fileCase) (o pbt.Outcome, err error) {
-	if !c.Cfg.valid() || !inDomain(c.Ali, domOf(c.Cfg)) || !validExt(c.Ext) || !c.Plan.valid() || c.Repeat < 0 || c.Repeat > maxRepeat {
+	if !c.Cfg.valid() || !inDomain(c.Ali, domOf(c.Cfg)) || !validExt(c.Ext) || !c.Plan.valid() || !c.Shape.valid() {
 		o.Skip = true
 		return o, nil
 	}
-	full := expand(c.Ali, c.Repeat)
+	full := expand(c.Ali, c.Shape, domOf(c.Cfg))
 	al, want, err := buildModel(full)
 	if err != nil {
 		return o, err
@@ -366,7 +366,7 @@ func TestFileLayer(t *testing.T) {
 
 type fstreamCase struct {
 	Alis   []gen.Ali `json:"alis"`
-	Repeat []int     `json:"repeat"`
+	Shapes []shape   `json:"shapes"`
 	Opts   []phyOpt  `json:"opts"`
 	Strict bool      `json:"strict"`
 	Ext    string    `json:"ext"`
@@ -376,12 +376,12 @@ type fstreamCase struct {
 	Reader string `json:"reader"`
 }
 
-func genSizedStream(t *rapid.T, d dom, strict bool, min, max int) (alis []gen.Ali, reps []int, opts []phyOpt) {
+func genSizedStream(t *rapid.T, d dom, strict bool, min, max int) (alis []gen.Ali, shapes []shape, opts []phyOpt) {
 	k := rapid.IntRange(min, max).Draw(t, "k")
 	for i := 0; i < k; i++ {
 		op := phyOpt{rapid.Bool().Draw(t, "oneline"), rapid.Bool().Draw(t, "noblock")}
-		a, rep := genSized(t, d, rapid.SampledFrom(streamSizes).Draw(t, "size"), cfg{Format: "phylip", Strict: strict, OneLine: op.OneLine, NoBlock: op.NoBlock})
-		alis, reps, opts = append(alis, a), append(reps, rep), append(opts, op)
+		a, sh := genSized(t, d, rapid.SampledFrom(streamSizes).Draw(t, "size"), cfg{Format: "phylip", Strict: strict, OneLine: op.OneLine, NoBlock: op.NoBlock})
+		alis, shapes, opts = append(alis, a), append(shapes, sh), append(opts, op)
 	}
 	return
 }
@@ -391,17 +391,17 @@ func genFStream(t *rapid.T) fstreamCase {
 	c.Strict = rapid.Bool().Draw(t, "strict")
 	c.Ext = rapid.SampledFrom(exts).Draw(t, "ext")
 	c.Reader = rapid.SampledFrom([]string{"auto", "multiple"}).Draw(t, "reader")
-	c.Alis, c.Repeat, c.Opts = genSizedStream(t, domOf(cfg{Format: "phylip", Strict: c.Strict}), c.Strict, 2, 6)
+	c.Alis, c.Shapes, c.Opts = genSizedStream(t, domOf(cfg{Format: "phylip", Strict: c.Strict}), c.Strict, 2, 6)
 	c.Plan = genPlan(t)
 	return c
 }
 
-func validStream(alis []gen.Ali, reps []int, opts []phyOpt, d dom) bool {
-	if len(alis) == 0 || len(alis) > 12 || len(opts) != len(alis) || len(reps) > len(alis) {
+func validStream(alis []gen.Ali, shapes []shape, opts []phyOpt, d dom) bool {
+	if len(alis) == 0 || len(alis) > 12 || len(opts) != len(alis) || len(shapes) > len(alis) {
 		return false
 	}
 	for i, a := range alis {
-		if !inDomain(a, d) || repAt(reps, i) > maxRepeat {
+		if !inDomain(a, d) || !shapeAt(shapes, i).valid() {
 			return false
 		}
 	}
@@ -410,11 +410,11 @@ func validStream(alis []gen.Ali, reps []int, opts []phyOpt, d dom) bool {
 
 func checkFStream(c fstreamCase) (o pbt.Outcome, err error) {
 	d := domOf(cfg{Format: "phylip", Strict: c.Strict})
-	if !validStream(c.Alis, c.Repeat, c.Opts, d) || !validExt(c.Ext) || !c.Plan.valid() || (c.Reader != "auto" && c.Reader != "multiple") {
+	if !validStream(c.Alis, c.Shapes, c.Opts, d) || !validExt(c.Ext) || !c.Plan.valid() || (c.Reader != "auto" && c.Reader != "multiple") {
 		o.Skip = true
 		return o, nil
 	}
-	texts, want, err := buildTexts(c.Alis, c.Repeat, c.Strict, c.Opts)
+	texts, want, err := buildTexts(c.Alis, c.Shapes, d, c.Strict, c.Opts)
 	if err != nil {
 		return o, err
 	}
@@ -476,8 +476,9 @@ func checkFStream(c fstreamCase) (o pbt.Outcome, err error) {
 	small, large := false, false
 	order := ""
 	for i, a := range c.Alis {
-		sc := sizeClassOf(a, repAt(c.Repeat, i))
+		sc := sizeClassOf(a, shapeAt(c.Shapes, i))
 		o.Class("stream member %s", sc)
+		o.Class("stream member shape: %s", shapeClass(shapeAt(c.Shapes, i)))
 		if len(texts[i]) <= 4096 {
 			small = true
 			if large && order == "" {
@@ -513,7 +514,7 @@ func TestFileStream(t *testing.T) {
 
 type readCase struct {
 	Ali    gen.Ali `json:"ali"`
-	Repeat int     `json:"repeat,omitempty"`
+	Shape  shape   `json:"shape"`
 	Cfg    cfg     `json:"cfg"`
 	Ext    string  `json:"ext"`
 }
@@ -525,14 +526,14 @@ func TestCompressedInput(t *testing.T) {
 		var c readCase
 		c.Cfg = genCfg(t, "cfg")
 		c.Ext = rapid.SampledFrom(exts).Draw(t, "ext")
-		c.Ali, c.Repeat = genSized(t, domOf(c.Cfg), rapid.SampledFrom(singleSizes).Draw(t, "size"), c.Cfg)
+		c.Ali, c.Shape = genSized(t, domOf(c.Cfg), rapid.SampledFrom(singleSizes).Draw(t, "size"), c.Cfg)
 		return c
 	}, func(c readCase) (o pbt.Outcome, err error) {
-		if !c.Cfg.valid() || !inDomain(c.Ali, domOf(c.Cfg)) || !validExt(c.Ext) || c.Repeat < 0 || c.Repeat > maxRepeat {
+		if !c.Cfg.valid() || !inDomain(c.Ali, domOf(c.Cfg)) || !validExt(c.Ext) || !c.Shape.valid() {
 			o.Skip = true
 			return o, nil
 		}
-		full := expand(c.Ali, c.Repeat)
+		full := expand(c.Ali, c.Shape, domOf(c.Cfg))
 		al, want, err := buildModel(full)
 		if err != nil {
 			return o, err
